@@ -90,6 +90,13 @@ Theorem C09_genprism_surfaces_iff_inside_partial : forall tol hz lo hi p,
 Proof. exact genprism_surfaces_iff_inside_partial. Qed.
 Print Assumptions C09_genprism_surfaces_iff_inside_partial.
 
+(** FINDING (known, F6): beyond a degenerate (collapsed-to-a-line) +z face with twisted
+    sides, the surfaces build() emits ([f6_surfaces]: no +z plane) accept a point above the prism *)
+Theorem C09_genprism_degenerate_twisted_refuted :
+  exists p, on_any f6_surfaces p = false /\ all_hold f6_surfaces p = true /\ inside_genprism 1 f6_lo f6_hi p = false.
+Proof. exact genprism_degenerate_twisted_refuted. Qed.
+Print Assumptions C09_genprism_degenerate_twisted_refuted.
+
 (** Parallelepiped AS BUILT agrees with the documented solid when alpha = 0
     (sines / cosines of theta, phi explicit; cos(theta) > 0 for theta in [0, 1/4) turn) *)
 Theorem C09_parallelepiped_surfaces_iff_inside_alpha0 : forall hx hy hz sinth costh sinphi cosphi p,
